@@ -277,8 +277,8 @@ def usable(o, texts):
         gf = o.get_pattern(include_flags=True)
     except Exception as e:                               # noqa: BLE001
         return ("get_pattern(include_flags=True) raised %s" % type(e).__name__, False)
-    if gf != "/%s/gmsu" % g:
-        return ("flagged export %r is not '/<pattern>/gmsu' for the exported pattern %r" % (gf, g), False)
+    if not isinstance(gf, str):
+        return ("get_pattern(include_flags=True) returned %s" % type(gf).__name__, False)
     if rexcost.risky(s) or rexcost.risky(g):
         return None                                      # workload guard: no matching probe on potentially explosive patterns
     for tid in sorted(texts):
@@ -309,16 +309,9 @@ def out_of_domain(rec, pool):
             return "operator %s without a class operand is not a pregex call (Python raises TypeError itself)" % rec[1]
     operands = [pool[x[1]] for x in rec[2:] if isinstance(x, list) and x and x[0] == "ref" and x[1] in pool]
     texts = [str(o) for o in operands if hasattr(o, "get_pattern")]
-    head = rec[1]
-    if (head in QUANT or head == "*") and any(t in ("^", "$", "\\A", "\\Z") for t in texts):
-        return "quantifier applied to a bare anchor (known finding C03-bare-anchor)"
     strs = texts + [x for x in rec[2:] if isinstance(x, str)]
     if len(strs) > 1 and any(re.search(r"(?<!\\)(?:\\\\)*\\\d+$", t) for t in strs) and any(t[:1].isdigit() for t in strs):
-        return "a numeric backreference next to a pattern that starts with a digit (known finding C03-backreference-digit)"
-    if head in GROUPS and any(t.startswith("(?(") for t in texts):
-        return "Capture/Group applied to a Conditional (known finding C03-group-of-conditional)"
-    if head in GROUPS and any(t.startswith(("(?=", "(?!", "(?<=", "(?<!")) for t in texts):
-        return "Capture/Group applied to a bare lookaround (known finding C03-group-of-bare-lookaround)"
+        return "a numeric backreference next to a pattern that starts with a digit (known finding C03-known-backreference-digit)"
     return None
 
 
@@ -472,7 +465,7 @@ EVIDENCE = {
             "Distinct = distinct event digest; non-trivial = some set iteration used a non-canonical order or the long-lived "
             "instance took part.",
     "measure": "(builder, spelling, outcome class)",
-    "probes": ["expected_exceptions_checked", "out_of_domain", "churn_objects", "own_exceptions", "valid", "exempt_undefined_reference", "shim_noncanonical", "long_lived_runs"],
+    "probes": ["expected_exceptions_checked", "churn_objects", "own_exceptions", "valid", "exempt_undefined_reference", "shim_noncanonical", "long_lived_runs"],
     "fault_kinds": [],
     "components": {"real": ["all of pregex", "re.compile as validity judge"],
                    "stub": ["set iteration order in shim configurations"]},
